@@ -3,7 +3,10 @@
 
 package store
 
-import "bytes"
+import (
+	"bytes"
+	"time"
+)
 
 // Test-only exports for the /verif correspondence harness.  Compiled only with
 // -tags verif; adds nothing to the normal build.
@@ -254,3 +257,92 @@ func (v *VerifTree) Load(path string) error { return v.t.load(path) }
 func (v *VerifTree) Release()               { v.t.release() }
 
 func VerifSetThresholdListKey(n uint32) { thresholdListKey = n }
+
+// ---- store / bucket level (C01..C03, C13, C17, C18) ----
+
+func VerifSetKeyHash(f func([]byte) uint64) {
+	if f == nil {
+		getKeyHash = getKeyHashDefalut
+	} else {
+		getKeyHash = f
+	}
+}
+
+// VerifFlush flushes the head chunk of every bucket, as the flusher does when forced.
+func (store *HStore) VerifFlush() { store.flushdatas(true) }
+
+// VerifWaitIdle waits for the asynchronous post-rotation flushes to finish
+// (every chunk below the head has an empty write buffer).
+func (store *HStore) VerifWaitIdle() {
+	for _, b := range store.buckets {
+		if b.State != BUCKET_STAT_READY || b.datas == nil {
+			continue
+		}
+		for {
+			busy := false
+			b.datas.Lock()
+			head := b.datas.newHead
+			b.datas.Unlock()
+			for i := 0; i < head; i++ {
+				c := &b.datas.chunks[i]
+				c.Lock()
+				if len(c.wbuf) > 0 {
+					busy = true
+				}
+				c.Unlock()
+			}
+			if !busy {
+				break
+			}
+			time.Sleep(200 * time.Microsecond)
+		}
+		b.datas.flushLock.Lock()
+		b.datas.flushLock.Unlock()
+	}
+}
+
+// VerifWaitOpen waits for the background hint check that open() starts for the
+// chunks below the loaded tree id.
+func (store *HStore) VerifWaitOpen() {
+	for _, b := range store.buckets {
+		if b.State != BUCKET_STAT_READY || b.datas == nil {
+			continue
+		}
+		for i := 0; i < b.TreeID.Chunk; i++ {
+			for {
+				b.hints.chunks[i].Lock()
+				n := len(b.hints.chunks[i].splits)
+				b.hints.chunks[i].Unlock()
+				if b.datas.chunks[i].size == 0 || n >= 2 {
+					break
+				}
+				time.Sleep(200 * time.Microsecond)
+			}
+		}
+	}
+	time.Sleep(2 * time.Millisecond)
+}
+
+// VerifHintDump does what one round of the hint dumper does.
+func (store *HStore) VerifHintDump() {
+	for _, b := range store.buckets {
+		if b.State == BUCKET_STAT_READY {
+			b.hints.dumpAndMerge(false)
+		}
+	}
+}
+
+// VerifGC runs one GC pass synchronously and returns its counters.
+func (store *HStore) VerifGC(bucketID, begin, end int, merge bool) GCFileState {
+	bkt := store.buckets[bucketID]
+	store.gcMgr.gc(bkt, begin, end, merge)
+	return bkt.GCHistory[len(bkt.GCHistory)-1].GCFileState
+}
+
+func (store *HStore) VerifGCRange(bucketID, start, end, noGCDays int) (int, int, error) {
+	return store.buckets[bucketID].gcCheckRange(start, end, noGCDays)
+}
+
+func (store *HStore) VerifBucketHome(bucketID int) string { return store.buckets[bucketID].Home }
+
+func (store *HStore) VerifNumGCHistory(bucketID int) int { return len(store.buckets[bucketID].GCHistory) }
